@@ -473,6 +473,15 @@ func Check(id, tier string, seed uint64, repo, vd string) (*gensim.Outcome, erro
 		return nil, ferr
 	}
 	out := &gensim.Outcome{Property: id, Level: map[string]string{"C04": "exploration", "C07": "fault_enumeration"}[id]}
+	var matrixViol []string
+	matrixRefused, matrixControls := 0, 0
+	if id == "C07" {
+		var merr error
+		matrixViol, matrixRefused, matrixControls, merr = e.noErrMatrix()
+		if merr != nil {
+			return nil, merr
+		}
+	}
 	counters := map[string]float64{}
 	distinct := map[string]float64{}
 	var samples []any
@@ -563,6 +572,24 @@ func Check(id, tier string, seed uint64, repo, vd string) (*gensim.Outcome, erro
 		}
 		_ = os.RemoveAll(r.Dir)
 	}
+	for k, v := range matrixViol {
+		if k > 0 {
+			break
+		}
+		key := id + ":missing-error-result-accepted"
+		if !seenKey[key] {
+			seenKey[key] = true
+			rp := &convReplay{Property: id, Class: "missing-error-result-accepted-matrix", Msg: v, Key: key, Engine: "convsim", Seed: seed, Output: strings.Join(matrixViol, "\n")}
+			_ = os.MkdirAll(filepath.Join(vd, "replays"), 0o755)
+			p := filepath.Join(vd, "replays", fmt.Sprintf("%s-%d-noerr-matrix.json", id, seed))
+			b, _ := json.MarshalIndent(rp, "", " ")
+			if err := os.WriteFile(p, b, 0o644); err != nil {
+				return nil, err
+			}
+			out.Found = append(out.Found, gensim.Found{V: gensim.Violation{Property: id, Class: "missing-error-result-accepted", Msg: v, Key: key}})
+			out.Replays = append(out.Replays, p)
+		}
+	}
 	if rejected*4 > ran+rejected {
 		return nil, &vnode.BuildError{Msg: fmt.Sprintf("%d of %d worlds were rejected (goverter refused them or the emitted code / harness did not compile) — the world generator or the tree under test is off; first reasons: %v", rejected, ran+rejected, rejectSamples)}
 	}
@@ -610,6 +637,8 @@ func Check(id, tier string, seed uint64, repo, vd string) (*gensim.Outcome, erro
 			}
 		}
 		cov["generation_time_clause_worlds_refused_as_required"] = noerr
+		cov["generation_time_clause_matrix"] = map[string]any{"variants_refused_as_required": matrixRefused, "controls_generated": matrixControls, "violations": len(matrixViol),
+			"rule": "6 fallible kinds (extend, extend with converter arg, map|FUNC, struct method auto-matched / mapped, default constructor) x 6 positions (direct, slice, map, ptr, nested struct, nested slices) x ignoreMissing on/off, root method declared without error result: goverter must refuse; exhaustive over this matrix"}
 	}
 	out.Coverage = cov
 	out.Assume = []string{
@@ -644,38 +673,42 @@ func (e *Engine) checkNoErrClause(r *worldResult, idx int) error {
 	if err := materialise(dir, s); err != nil {
 		return &vnode.BuildError{Msg: err.Error()}
 	}
-	// drop the error result of the first declared method that reaches a leaf
-	conv := s.ConverterSource()
-	ms := s.methods(false)
-	target := ""
-	for _, m := range ms {
-		if s.reachesLeaf(m) {
-			target = m.Name
+	// drop the error result of each declared method that reaches a fallible function (one
+	// at a time, up to four per world); goverter must refuse every such variant
+	convSrc := s.ConverterSource()
+	tried := 0
+	for _, m := range s.methods(false) {
+		if tried >= 4 {
 			break
 		}
+		if !s.reachesLeaf(m) {
+			continue
+		}
+		re := regexp.MustCompile(`(\s` + m.Name + `(?: func)?\(source [^)]*\)) \(([^,]+), error\)`)
+		loc := re.FindStringIndex(convSrc)
+		if loc == nil {
+			continue
+		}
+		tried++
+		conv := convSrc[:loc[0]] + re.ReplaceAllString(convSrc[loc[0]:loc[1]], "$1 $2") + convSrc[loc[1]:]
+		if err := writeFile(filepath.Join(dir, "w", "conv.go"), conv); err != nil {
+			return &vnode.BuildError{Msg: err.Error()}
+		}
+		_ = os.RemoveAll(filepath.Join(dir, "w", "generated"))
+		_ = os.RemoveAll(filepath.Join(dir, "w", "twin"))
+		_ = os.Remove(filepath.Join(dir, "w", "conv.gen.go"))
+		out, err := goRun(dir, nil, e.Goverter, "gen", "./w")
+		if err == nil {
+			r.NoErrViol = fmt.Sprintf("C07 missing-error-result-accepted: method %s was declared without an error result although a fallible custom function is reachable from it, and goverter generated code instead of refusing", m.Name)
+			return nil
+		}
+		if ee, ok := err.(*exec.ExitError); ok && ee.ExitCode() == 1 {
+			r.NoErrOK = true
+			continue
+		}
+		return &vnode.BuildError{Msg: "goverter run (noerr clause): " + err.Error() + "\n" + out}
 	}
-	if target == "" {
-		return nil
-	}
-	re := regexp.MustCompile(`(\s` + target + `(?: func)?\(source [^)]*\)) \(([^,]+), error\)`)
-	loc := re.FindStringIndex(conv)
-	if loc == nil {
-		return nil
-	}
-	conv = conv[:loc[0]] + re.ReplaceAllString(conv[loc[0]:loc[1]], "$1 $2") + conv[loc[1]:]
-	if err := writeFile(filepath.Join(dir, "w", "conv.go"), conv); err != nil {
-		return &vnode.BuildError{Msg: err.Error()}
-	}
-	out, err := goRun(dir, nil, e.Goverter, "gen", "./w")
-	if err == nil {
-		r.NoErrViol = fmt.Sprintf("C07 missing-error-result-accepted: method %s was declared without an error result although a fallible custom function is reachable from it, and goverter generated code instead of refusing", target)
-		return nil
-	}
-	if ee, ok := err.(*exec.ExitError); ok && ee.ExitCode() == 1 {
-		r.NoErrOK = true
-		return nil
-	}
-	return &vnode.BuildError{Msg: "goverter run (noerr clause): " + err.Error() + "\n" + out}
+	return nil
 }
 
 // reachesLeaf: does the method's source type reach a fallible leaf?
@@ -698,6 +731,9 @@ func (s *Spec) reachesLeaf(m methodSpec) bool {
 					return false
 				}
 				seen[n.ID] = true
+				if n.MethodSrc || n.Ctor {
+					return true
+				}
 			}
 			for _, f := range n.Fields {
 				if walk(f.N) {
@@ -706,7 +742,7 @@ func (s *Spec) reachesLeaf(m methodSpec) bool {
 			}
 		case "ref":
 			return walk(s.Structs[n.ID])
-		case "ptr", "slice":
+		case "ptr", "slice", "tptr":
 			return walk(n.Elem)
 		case "map":
 			return walk(n.Key) || walk(n.Elem)
@@ -727,6 +763,23 @@ func Replay(path, repo, vd string) (int, error) {
 	var rp convReplay
 	if err := json.Unmarshal(b, &rp); err != nil {
 		return 2, err
+	}
+	if rp.Class == "missing-error-result-accepted-matrix" {
+		em, err := NewEngine(repo)
+		if err != nil {
+			return 2, err
+		}
+		defer em.Close()
+		viol, _, _, err := em.noErrMatrix()
+		if err != nil {
+			return 2, err
+		}
+		if len(viol) > 0 {
+			fmt.Printf("VIOLATION property=%s replay=%s\n  %s\n", rp.Property, path, strings.Join(viol, "\n  "))
+			return 1, nil
+		}
+		fmt.Println("replay: no violation on the current tree")
+		return 0, nil
 	}
 	e, err := NewEngine(repo)
 	if err != nil {
@@ -927,4 +980,85 @@ func (e *Engine) raceAux(r *worldResult) error {
 		r.RaceReport = out.String()
 	}
 	return nil
+}
+
+// noErrMatrix enumerates the generation-time clause of C07 on minimal worlds: one fallible
+// custom function of each kind at each position, with ignoreMissing on and off; the root
+// method is declared WITHOUT an error result and goverter must refuse. The control (same
+// world with the error result) must generate. Returns violations and the number of refused
+// variants.
+func (e *Engine) noErrMatrix() ([]string, int, int, error) {
+	kinds := []string{"extend", "extendconv", "mapfunc", "methodsrc-auto", "methodsrc-map", "ctor"}
+	positions := []string{"direct", "slice", "map", "ptr", "nested", "nested-slice"}
+	type job struct {
+		s    *Spec
+		name string
+	}
+	var jobs []job
+	for _, k := range kinds {
+		for _, p := range positions {
+			for _, im := range []bool{false, true} {
+				format := "struct"
+				if k != "extendconv" && (len(jobs)%3 == 1) {
+					format = "function"
+				}
+				jobs = append(jobs, job{ManualSpec(k, p, im, format, []string{"none", "wrapErrors", "wrapErrorsUsing"}[len(jobs)%3]), fmt.Sprintf("%s/%s/ignoreMissing=%v/%s", k, p, im, format)})
+			}
+		}
+	}
+	var mu sync.Mutex
+	var viol []string
+	refused, controlsOK := 0, 0
+	var ferr error
+	var wg sync.WaitGroup
+	sem := make(chan struct{}, 16)
+	for i, j := range jobs {
+		wg.Add(1)
+		go func(i int, j job) {
+			defer wg.Done()
+			sem <- struct{}{}
+			defer func() { <-sem }()
+			dir := filepath.Join(e.Scratch, fmt.Sprintf("noerrm-%d", i))
+			defer os.RemoveAll(dir)
+			if err := materialise(dir, j.s); err != nil {
+				mu.Lock()
+				ferr = &vnode.BuildError{Msg: err.Error()}
+				mu.Unlock()
+				return
+			}
+			// control: with the error result the world must generate
+			if _, err := goRun(dir, nil, e.Goverter, "gen", "./w"); err != nil {
+				return // goverter does not accept this combination at all: nothing to check
+			}
+			mu.Lock()
+			controlsOK++
+			mu.Unlock()
+			root := fmt.Sprintf("Conv%d", j.s.Roots[0].ID)
+			src := j.s.ConverterSource()
+			re := regexp.MustCompile(`(\s` + root + `(?: func)?\(source [^)]*\)) \(([^,]+), error\)`)
+			loc := re.FindStringIndex(src)
+			if loc == nil {
+				return
+			}
+			conv := src[:loc[0]] + re.ReplaceAllString(src[loc[0]:loc[1]], "$1 $2") + src[loc[1]:]
+			_ = writeFile(filepath.Join(dir, "w", "conv.go"), conv)
+			_ = os.RemoveAll(filepath.Join(dir, "w", "generated"))
+			_ = os.RemoveAll(filepath.Join(dir, "w", "twin"))
+			out, err := goRun(dir, nil, e.Goverter, "gen", "./w")
+			mu.Lock()
+			defer mu.Unlock()
+			if err == nil {
+				viol = append(viol, fmt.Sprintf("C07 missing-error-result-accepted: minimal world %s: method %s has no error result although the only conversion of its kind is fallible, and goverter generated code (exit 0) instead of refusing", j.name, root))
+				return
+			}
+			if ee, ok := err.(*exec.ExitError); ok && ee.ExitCode() == 1 {
+				refused++
+				return
+			}
+			ferr = &vnode.BuildError{Msg: "goverter run (noerr matrix): " + err.Error() + "\n" + out}
+		}(i, j)
+	}
+	wg.Wait()
+	sort.Strings(viol)
+	return viol, refused, controlsOK, ferr
 }
